@@ -57,6 +57,13 @@ CLAIMED["C10"] = dict(
     design_ref="§5 C10",
 )
 
+CLAIMED["C13"] = dict(
+    category="exploration",
+    technique="bounded-exhaustive lattice enumeration (non-electrolyte zoo x T x composition x {B, C, B', C'}); oracle: extrapolated zero-density limit of (Z-1)/rho from real finite-density states",
+    text="For every non-electrolyte zoo model, temperature and composition of the lattice all four virial quantities are compared with the zero-density limit of (Z-1)/rho and of its density derivative, obtained by quadratic extrapolation from real states on a density ladder that is lowered until the extrapolation converges, and with Richardson temperature differences of the coefficients themselves. Models whose coefficients are wrong or NaN on the pinned tree are listed per (model, coefficient) in known_findings.txt, so a further model going wrong is reported.",
+    design_ref="§5 C13",
+)
+
 NOT_YET = "check not built yet (work in progress; see DESIGN.md §9 build order) - not a claim that the technique cannot apply"
 
 ALL = ["C%02d" % i for i in range(1, 21)]
